@@ -74,6 +74,8 @@ static void damage_all(const uint8_t* img, size_t n, const shape_t* sh, const ch
         /* a file carquet wrote whose page checksums are not the CRC-32 of the page bytes is a C14 violation, not a harness problem */
         if (strstr(fdesc, "dmg:carquet") && !strncmp(rf.err, "crc:", 4)) { mc_fail("writer.page-crc-is-not-crc32", "%s: %s", fdesc, rf.err); ref_arena_free(&RA); return; }
         mc_harness_error("reference reader rejects the seed file: %s (%s)", rf.err, fdesc); }
+    /* the writer checksums every page it writes (the default options): a page without a CRC cannot have its damage detected */
+    if (strstr(fdesc, "dmg:carquet")) for (int p = 0; p < rf.npages; p++) if (!rf.pages[p].has_crc) { mc_fail(rf.pages[p].nlevels > 0 ? "writer.page-without-crc" : "writer.page-without-crc.empty-page", "%s: page %d (%lld level entries, body %zu bytes) has no crc field", fdesc, p, (long long)rf.pages[p].nlevels, rf.pages[p].body_len); break; }
     /* undamaged: never a checksum error, in every mode */
     for (int mode = 0; mode < 3; mode++) {
         carquet_error_t err = CARQUET_ERROR_INIT; carquet_reader_t* rd = open_mode(mode, img, n, 1, &err); if (!rd) { mc_fail("undamaged.open-failed", "%s mode=%d code %d", fdesc, mode, err.code); continue; }
@@ -128,6 +130,17 @@ static void enumerate(void) {
         uint8_t* img; size_t len; carquet_status_t st; const char* where; if (tbl_write(&h, &img, &len, &st, &where)) { mc_count("seed.writer-refused", 1); continue; }
         shape_t sh; memset(&sh, 0, sizeof sh); sh.ncols = 2; sh.nrg = 2; sh.rg_rows[0] = 4; sh.rg_rows[1] = 3; for (int c = 0; c < 2; c++) { sh.opt[c] = h.cols[c].opt; sh.ptype[c] = h.cols[c].ptype; sh.tlen[c] = h.cols[c].tlen; }
         char fd[700]; snprintf(fd, sizeof fd, "dmg:carquet;%s", tbl_desc(&h)); g_applied = 0; damage_all(img, len, &sh, fd, deep); mc_count("damages.applied", g_applied); free(img); ref_arena_free(&RA);
+    }
+    mc_stage("carquet-written-seeds.pages-without-values");
+    for (int cd = 0; cd < 5; cd++) for (int kind = 0; kind < 4; kind++) for (int v = 0; v < 2; v++) {
+        if (!mc_next()) continue;
+        static const int NK[] = { 1, 3, 7, 9 };      /* nullable kinds */
+        hist_t h; memset(&h, 0, sizeof h); h.ncols = 2; h.cols[0] = TBL_KINDS[NK[kind]]; h.cols[1] = TBL_KINDS[0]; h.cols[0].name = "a"; h.cols[1].name = "b"; if (!h.cols[0].opt) continue;
+        h.N = 7; h.nrg = 2; h.rg_rows[0] = 4; h.rg_rows[1] = 3; h.mask[0] = v ? 0x7c : 0x0c; h.comp[0] = 0x02; h.comp[1] = 0x04; h.codec = CD[cd]; h.page_sel = 0; h.pattern = 0;     /* rows 2,3 (v: 2..6) null: the second batch of row group 0 (v: and all of row group 1) is a page of nulls only */
+        mc_desc("dmg:carquet;all-null-page;%s", tbl_desc(&h)); mc_case_key(mc_mix(0x14d, ((uint64_t)cd << 16) | ((uint64_t)kind << 8) | (uint64_t)v)); mc_nontrivial();
+        uint8_t* img; size_t len; carquet_status_t st; const char* where; if (tbl_write(&h, &img, &len, &st, &where)) { mc_count("seed.writer-refused", 1); continue; }
+        shape_t sh; memset(&sh, 0, sizeof sh); sh.ncols = 2; sh.nrg = 2; sh.rg_rows[0] = 4; sh.rg_rows[1] = 3; for (int c = 0; c < 2; c++) { sh.opt[c] = h.cols[c].opt; sh.ptype[c] = h.cols[c].ptype; sh.tlen[c] = h.cols[c].tlen; }
+        char fd[700]; snprintf(fd, sizeof fd, "dmg:carquet;all-null-page;%s", tbl_desc(&h)); g_applied = 0; damage_all(img, len, &sh, fd, deep); mc_count("damages.applied", g_applied); free(img); ref_arena_free(&RA);
     }
     mc_stage("reference-written-seeds.dictionary-page");
     for (int cd = 0; cd < 5; cd++) for (int t = 0; t < 3; t++) for (int opt = 0; opt < 2; opt++) {
